@@ -7,6 +7,7 @@ import (
 	"sync"
 
 	"github.com/jig/lisp/lib/call"
+	"github.com/jig/lisp/simhook"
 	"github.com/jig/lisp/types"
 	. "github.com/jig/lisp/types"
 )
@@ -44,6 +45,9 @@ func reset_BANG(atomRef, value MalType) (MalType, error) {
 		return nil, errors.New("reset! called with non-atom")
 	}
 	atm := atomRef.(*Atom)
+	if simhook.Enabled {
+		simhook.Await("atom.reset.lock", atm, func() bool { return simTryLock(&atm.Mutex) })
+	}
 	atm.Mutex.Lock()
 	defer atm.Mutex.Unlock()
 	atm.Set(value)
@@ -55,12 +59,17 @@ func swap_BANG(ctx context.Context, a ...MalType) (MalType, error) {
 		return nil, errors.New("swap! called with non-atom")
 	}
 	atm := a[0].(*Atom)
+	if simhook.Enabled {
+		simhook.Await("atom.swap.lock", atm, func() bool { return simTryLock(&atm.Mutex) })
+	}
 	atm.Mutex.Lock()
 	defer atm.Mutex.Unlock()
 	args := []MalType{atm.Val}
+	simhook.Yield("atom.swap.read", atm)
 	f := a[1]
 	args = append(args, a[2:]...)
 	res, e := Apply(ctx, f, args)
+	simhook.Yield("atom.swap.applied", atm)
 	if e != nil {
 		return nil, e
 	}
@@ -86,6 +95,9 @@ func (a *Atom) Set(val MalType) MalType {
 }
 
 func (a *Atom) Deref(_ context.Context) (MalType, error) {
+	if simhook.Enabled {
+		simhook.Await("atom.deref.rlock", a, func() bool { return simTryRLock(&a.Mutex) })
+	}
 	a.Mutex.RLock()
 	defer a.Mutex.RUnlock()
 	return a.Val, nil
@@ -120,14 +132,20 @@ func NewFuture(ctx context.Context, fn MalFunc) *Future {
 		CancelFunc: cancel,
 		Fn:         fn,
 	}
+	simTask := simhook.Spawn(f)
 	go func() {
+		simhook.TaskStart(simTask)
+		defer simhook.TaskEnd(simTask)
 		defer func() { f.Done = true }()
 		res, err := Apply(ctx, fn, nil)
+		simhook.Yield("future.body-returned", f)
 		if err != nil {
 			f.ErrChan <- err
+			simhook.Yield("future.delivered", f)
 			return
 		}
 		f.ValChan <- res
+		simhook.Yield("future.delivered", f)
 	}()
 
 	return f
@@ -135,7 +153,9 @@ func NewFuture(ctx context.Context, fn MalFunc) *Future {
 
 func (f *Future) Cancel() bool {
 	if !f.Done {
+		simhook.Yield("future.cancel.checked", f)
 		f.Cancelled = true
+		simhook.Yield("future.cancel.flagged", f)
 		f.Done = true
 		f.CancelFunc()
 	}
@@ -143,13 +163,17 @@ func (f *Future) Cancel() bool {
 }
 
 func (f *Future) Deref(ctx context.Context) (MalType, error) {
+	simBlk := simhook.BeforeBlock(ctx, "future.deref", f)
 	select {
 	case <-ctx.Done():
+		simhook.AfterBlock(simBlk, "ctx")
 		return nil, errors.New("timeout while dereferencing future")
 	case err := <-f.ErrChan:
+		simhook.AfterBlock(simBlk, "err")
 		f.ErrChan <- err
 		return nil, err
 	case res := <-f.ValChan:
+		simhook.AfterBlock(simBlk, "val")
 		f.ValChan <- res
 		return res, nil
 	}
@@ -161,4 +185,22 @@ func (fut *Future) LispPrint(_Pr_str func(MalType, bool) string) string {
 
 func (a *Future) Type() string {
 	return "future-call"
+}
+
+// simTryLock / simTryRLock are the readiness probes handed to simhook.Await:
+// they report whether the lock could be taken right now, and leave it free.
+func simTryLock(m *sync.RWMutex) bool {
+	if m.TryLock() {
+		m.Unlock()
+		return true
+	}
+	return false
+}
+
+func simTryRLock(m *sync.RWMutex) bool {
+	if m.TryRLock() {
+		m.RUnlock()
+		return true
+	}
+	return false
 }
